@@ -6,7 +6,7 @@ from props._hist import History, Fail, result_fail, sig_from_rec, std_replay
 PROP = "C03"
 LEVEL = "other"
 SELFTEST_PARTS = ("num",)
-WALL_BUDGET = {"quick": 1200, "thorough": 9000}
+WALL_BUDGET = {"quick": 3600, "thorough": 14400}
 OPS = ["create_a", "create_b", "write_a", "write_b", "delete_a", "delete_b", "rename_a_b", "rename_b_a", "mkdir_d", "rmdir_d", "move_a_d", "rendir_d_e",
        "mkdir_d_s", "create_d_a", "delete_d_a", "write_d_a", "mv:/d/a:/d/b"]
 # fixed multi-step user stories whose schedules are explored more deeply (slots per operation given with each)
